@@ -582,6 +582,43 @@ pub fn start_anchor_shapes(hard: &str) -> Vec<String> {
     out
 }
 
+/// Every escape, assertion and class form the parser knows, each in a few standard
+/// positions (the small-pattern families are built from a handful of atoms only).
+pub fn ingredient_sweep(common_syntax: bool) -> Vec<String> {
+    let consuming = ["\\d", "\\D", "\\s", "\\S", "\\w", "\\W", "\\h", "\\H", "\\x41", "\\x{e9}", "\\pL", "\\p{Greek}", "\\PL", "\\P{Ll}", "\\a", "\\f", "\\n", "\\r", "\\t", "\\v", "\\e",
+        "\\ ", ".", "(?s:.)", "[^a]", "[a-c&&[^b]]", "[[:alpha:]]", "[\\d\\-a]", "[\\n\\r]", "\\u00e9", "\\U000000e9", "(?i:k)", "(?i:\\x{17f})"];
+    let zero = ["\\A", "\\z", "\\Z", "\\b", "\\B", "\\<", "\\>", "^", "$", "(?m:^)", "(?m:$)"];
+    let mut out = Vec::new();
+    let hard = if common_syntax { "\\b" } else { "(?=)" };
+    for x in consuming.iter() {
+        if common_syntax && (x.contains("\\h") || x.contains("\\H") || x.contains("\\e") || x.contains("\\u") || x.contains("\\U")) {
+            continue;
+        }
+        for ctx in ["X@", "@X", "aX@", "X+?b@", "X{2}@", "(?:X|a)@", "(X)?b@"].iter() {
+            out.push(ctx.replace("X", x).replace("@", hard));
+        }
+        if !common_syntax {
+            for ctx in ["(?<=X)a", "(?<!X)a", "(?=X)", "(X)\\1", "(?>X|a)b"].iter() {
+                out.push(ctx.replace("X", x));
+            }
+        }
+    }
+    for x in zero.iter() {
+        if common_syntax && (*x == "\\Z" || *x == "\\<" || *x == "\\>") {
+            continue;
+        }
+        for ctx in ["X@", "Xa@", "aX@", "a?X@", "(?:X|a)b@", "X.@"].iter() {
+            out.push(ctx.replace("X", x).replace("@", hard));
+        }
+        if !common_syntax {
+            for ctx in ["(?!X)a", "(?<=aX)", "(?=X)a?"].iter() {
+                out.push(ctx.replace("X", x));
+            }
+        }
+    }
+    out
+}
+
 /// Commits that merge many log entries although the text is short: counted repeats over
 /// groups that can match empty, inside an atomic scope whose continuation fails (seed
 /// S7-C20: a merge that is only wrong beyond 32 entries).
